@@ -12,8 +12,10 @@ import (
 	"math"
 	"math/rand"
 	"net/http"
+	"os"
 	"path/filepath"
 	"regexp"
+	"runtime"
 	"strconv"
 	"strings"
 	"sync"
@@ -76,6 +78,7 @@ type conf struct {
 	SlowMw     time.Duration // the server's namespace middleware takes this long
 	Greeting   bool          // the server emits an event with an ack from its connection handler
 	HTTPTO     time.Duration // ResponseHeaderTimeout of a user-supplied HTTP transport (polling)
+	Chaos      int           // > 0: a Debugger that sleeps in about one log call out of Chaos
 	FastPing   bool          // short heartbeat: the shortest the server accepts: a silent link is noticed within two seconds
 }
 
@@ -153,6 +156,9 @@ func newWorld(cf conf) (*world, error) {
 	mc := &sio.ManagerConfig{ReconnectionAttempts: cf.Limit, ReconnectionDelay: &cf.Min, ReconnectionDelayMax: &cf.Max, RandomizationFactor: &cf.Jitter}
 	if cf.HTTPTO > 0 {
 		mc.EIO.HTTPTransport = &http.Transport{ResponseHeaderTimeout: cf.HTTPTO}
+	}
+	if cf.Chaos > 0 {
+		mc.Debugger = &rig.ChaosDebugger{P: cf.Chaos}
 	}
 	w.m = rig.NewManager(px.URL(), cf.Transports, mc)
 	w.s = w.m.Socket("/", nil)
@@ -497,6 +503,75 @@ func (e *env) flushWindow(cf conf) {
 	e.res.Case(fmt.Sprint("flush-window", cf), true)
 }
 
+// one goroutine emits without a pause while the socket connects, and again while it reconnects: nothing of
+// what it emits may overtake anything it emitted earlier (log calls and hook points are scheduling points here)
+func (e *env) emitStorm(cf conf) {
+	cf.Chaos = 1 // every log call of the library sleeps 20..300 us
+	w, id := e.begin(cf, "emit-storm")
+	if w == nil {
+		return
+	}
+	var yc int64
+	sio.VerifSetGate(func(string, any) {
+		if atomic.AddInt64(&yc, 1)%3 == 0 {
+			runtime.Gosched()
+		}
+	})
+	defer sio.VerifSetGate(nil)
+	var run, stop, busy int32
+	limit := int32(700) // per phase
+	done := make(chan struct{})
+	go func() {
+		defer close(done)
+		for atomic.LoadInt32(&stop) == 0 {
+			if atomic.LoadInt32(&run) == 1 && w.n < int(atomic.LoadInt32(&limit)) {
+				atomic.StoreInt32(&busy, 1)
+				if atomic.LoadInt32(&run) == 0 { // paused meanwhile
+					atomic.StoreInt32(&busy, 0)
+					continue
+				}
+				w.emit("pb"[w.n%2])
+				atomic.StoreInt32(&busy, 0)
+				if w.n%6 == 0 {
+					time.Sleep(50 * time.Microsecond) // paced: the storm has to last through the connect
+				} else {
+					runtime.Gosched()
+				}
+			} else {
+				time.Sleep(100 * time.Microsecond)
+			}
+		}
+	}()
+	atomic.StoreInt32(&run, 1)
+	time.Sleep(2 * time.Millisecond) // some emits before Connect
+	w.connect()
+	if !w.waitConnected(5 * time.Second) {
+		atomic.StoreInt32(&stop, 1)
+		<-done
+		e.res.Inconclusive("c15", "no initial connect", id)
+		e.abort(w)
+		return
+	}
+	time.Sleep(10 * time.Millisecond)
+	// quiet before the cut (what is in flight when the link goes is not owed), then the storm again while offline and reconnecting
+	atomic.StoreInt32(&run, 0)
+	rig.WaitUntil(2*time.Second, func() bool { return atomic.LoadInt32(&busy) == 0 }) // no emit is half-way
+	time.Sleep(time.Millisecond)
+	w.waitDelivered(5*time.Second, w.nonVol, 0)
+	w.down("refuse")
+	w.waitDisconnected(4 * time.Second)
+	atomic.StoreInt32(&limit, int32(w.n)+700)
+	atomic.StoreInt32(&run, 1)
+	time.Sleep(5 * time.Millisecond)
+	w.up()
+	w.waitConnected(6 * time.Second)
+	time.Sleep(10 * time.Millisecond)
+	atomic.StoreInt32(&stop, 1)
+	<-done
+	e.end(w, "connected", 8*time.Second)
+	e.res.Case(fmt.Sprint("emit-storm", cf), true)
+}
+
 // black-holed dials
 func (e *env) hole(cf conf, expect string) {
 	cf.FastPing = true
@@ -543,6 +618,15 @@ func TestC15(t *testing.T) {
 		return conf{Name: name, Transports: tr, Limit: limit, Min: 20 * ms, Max: 80 * ms, Jitter: jit}
 	}
 	ws, po := []string{"websocket"}, []string{"polling"}
+	if os.Getenv("VERIF_ONLY") == "storm" { // development aid
+		for k := 0; k < 30; k++ {
+			e.emitStorm(base("emit-storm", [][]string{ws, po}[k%2], 0, 0))
+		}
+		res.Scenarios = e.scen
+		tw.Close()
+		res.Write(out, "result.json")
+		return
+	}
 	mixes := []string{"pvab", "apvb", "bbpa", "vpva", "p", "av"}
 	// outages: limit x j
 	limits := []uint32{0, 1, 2, 3, 5}
@@ -598,6 +682,9 @@ func TestC15(t *testing.T) {
 			e.earlyClose(base("early-close", tr, 0, 0))
 		}
 		e.greetingFlush(base("greeting-flush", tr, 0, 0))
+		for k := 0; k < vres.Pick(2, 6); k++ {
+			e.emitStorm(base("emit-storm", tr, 0, 0))
+		}
 		e.flushWindow(base("flush-window", tr, 0, 0))
 	}
 	e.hole(base("hole-default", ws, 0, 0), "hung")
